@@ -20,17 +20,27 @@ const (
 type bounds struct {
 	L       int  // length of symbolic scope / audience strings
 	two     bool // two granted scopes and two registered scopes instead of one
+	dotted  bool // the first scope of a list may have two dot-separated segments (built from dot-free parts)
 	exclude string
 }
 
 func getBounds() bounds {
 	if zz.Thorough() {
-		return bounds{L: 12, two: true, exclude: " " + upper}
+		return bounds{L: 6, two: true, dotted: true, exclude: " ." + upper}
 	}
 	return bounds{L: 8, exclude: " ." + upper}
 }
 
 func scopeStr(name string, b bounds) string { return zz.StringEx(name, b.L, b.exclude) }
+
+// firstScope is scopeStr, or "seg.seg" from two separator-free symbolic segments (thorough): the engine then
+// splits it structurally, like the C12 harnesses do (free-form dotted strings make the solver answer unknown).
+func firstScope(name string, b bounds) string {
+	if b.dotted && flag(name+".dotted") {
+		return scopeStr(name, b) + "." + scopeStr(name, b)
+	}
+	return scopeStr(name, b)
+}
 
 // flag returns a concrete bool (the path forks here, later uses cost no solver queries).
 func flag(name string) bool {
@@ -80,7 +90,7 @@ func refreshScopes(b bounds) (cfg []string, effective []string) {
 }
 
 func grantedScopes(b bounds) []string {
-	granted := []string{scopeStr("granted", b)}
+	granted := []string{firstScope("granted", b)}
 	zz.Assume(granted[0] != "")
 	if b.two {
 		g2 := scopeStr("granted", b)
@@ -156,11 +166,16 @@ func ZZ_C05_refresh_step() {
 		rt0 = world.RefreshTokenOf(resp)
 	}
 	zz.Assume(rt0 != "")
+	// the subject of the original grant as the provider recorded it (the password flow of the MemoryStore
+	// invents a random subject, the code flow carries the one the application logged in)
+	_, orig, oerr := wd.IntrospectErr(rt0, fosite.RefreshToken)
+	zz.Assume(oerr == nil)
+	subject0 := orig.GetSession().GetSubject()
 
 	// ---- the registration and the configuration change
 	cur := append([]string{}, granted...)
 	if free(dimClientScopes) {
-		cur = []string{scopeStr("client.scope", b)}
+		cur = []string{firstScope("client.scope", b)}
 		if b.two {
 			cur = append(cur, scopeStr("client.scope", b))
 		}
@@ -230,7 +245,7 @@ func ZZ_C05_refresh_step() {
 			zz.Assert(ar.GetClient().GetID() == "c1", "new token belongs to the original client")
 			zz.Assert(world.EqList(ar.GetGrantedScopes(), granted), "new token carries exactly the originally granted scopes")
 			zz.Assert(world.EqList(ar.GetGrantedAudience(), []string{aud0}), "new token carries exactly the originally granted audience")
-			zz.Assert(ar.GetSession().GetSubject() == subject, "new token carries the original subject")
+			zz.Assert(ar.GetSession().GetSubject() == subject0, "new token carries the original subject")
 		}
 		if sc, ok := resp.GetExtra("scope").(string); ok {
 			zz.Assert(sc == strings.Join(granted, " "), "response scope is the originally granted scope")
